@@ -89,7 +89,7 @@ def check_keyed(ctx, coq_ok):
     # recorded finding: a Kafka response that is dissected before its request is dropped after the
     # matcher's polling limit and the server side stops
     for f in ctx.load_known():
-        if f.get("class") == "kafka-response-before-request":
+        if f.get("class") == "kafka-response-before-request" and isinstance(f.get("witness"), str):
             rc, out = ctx.vh("vh-match", ["seq"], inp=f["witness"] + "\n")
             try:
                 r = json.loads([l for l in out.splitlines() if l.startswith("{")][0])
